@@ -12,7 +12,7 @@ Live(h) == h[CHOOSE i \in Idx(h) : IsEv(h[i], "harness", "setup_done")].app_sid
 
 \* test streams in the order of their first appearance
 TagEvents(h) == { i \in Idx(h) : h[i].src = "peer" /\ h[i].ev \in {"peer_open", "peer_write", "peer_end"}
-                                  /\ Has(h[i], "tag") /\ h[i].tag # "probe" }
+                                  /\ Has(h[i], "tag") /\ h[i].tag \notin {"probe", "hs", "in0"} }
 Tags(h) == { h[i].tag : i \in TagEvents(h) }
 FirstIdx(h, t) == CHOOSE i \in TagEvents(h) : h[i].tag = t /\ \A j \in TagEvents(h) : h[j].tag = t => i <= j
 TagSeq(h) == LET ord == SortedSeq({ FirstIdx(h, t) : t \in Tags(h) }) IN [k \in 1..Len(ord) |-> h[ord[k]].tag]
@@ -22,7 +22,7 @@ EndOf(h, t) ==
   LET ends == { i \in Idx(h) : IsEv(h[i], "peer", "peer_end") /\ h[i].tag = t } IN
   IF ends = {} THEN "open" ELSE h[CHOOSE i \in ends : \A j \in ends : i <= j].a
 DirOf(h, t) ==
-  IF t \in {"ctrl"} THEN "ctrl" ELSE IF t = "req" THEN "req"
+  IF t \in {"ctrl"} THEN "ctrl" ELSE IF t = "req" THEN "req" ELSE IF t = "mctrl" THEN "mctrl"
   ELSE h[CHOOSE i \in Idx(h) : IsEv(h[i], "peer", "peer_open") /\ h[i].tag = t].a
 
 RECURSIVE Outcomes(_, _, _, _)
@@ -34,10 +34,11 @@ Outcomes(h, tags, st, acc) ==
            end == EndOf(h, t)
            dir == DirOf(h, t)
            o == CASE dir = "ctrl" -> CtrlFrom(bs, 1, end)
+                  [] dir = "mctrl" -> CtrlStream(bs, end)
                   [] dir = "req" -> ReqOutcome(bs, end)
                   [] dir = "open_uni" -> UniOutcome(bs, end, st, Live(h))
                   [] dir = "open_bi" -> BiOutcome(bs, end, Live(h)) IN
-    IF o.k \in {"close", "free", "session_closed"} THEN Append(acc, [tag |-> t, o |-> o])
+    IF o.k \in {"close", "free", "session_closed", "pending"} THEN Append(acc, [tag |-> t, o |-> o])
     ELSE Outcomes(h, Tail(tags), IF dir = "open_uni" THEN UniUpd(bs, st) ELSE st,
                   Append(acc, [tag |-> t, o |-> o]))
 
@@ -60,6 +61,7 @@ JudgeC12(h) ==
   /\ LET last == outs[Len(outs)].o IN
      CASE last.k = "free" -> TRUE
        [] last.k = "session_closed" -> TRUE            \* C04's business
+       [] last.k = "pending" -> closed = {}
        [] last.k = "close" ->
             /\ closed # {}
             /\ \A i \in closed : h[i].why.k = "ApplicationClosed" /\ h[i].why.code[1] = 0
